@@ -8,6 +8,7 @@
 #include "ops.h"
 #include "oracles.h"
 #include "c08.h"
+#include "impl.h"
 
 namespace vh {
 namespace {
@@ -49,16 +50,37 @@ std::string observe(const Manifold& m, Rng* order, MeshGL64* outMesh = nullptr) 
   return s;
 }
 
-std::string observeX(const CrossSection& c, Rng* order) {
+// One getter is asked first, before anything else can materialise a pending
+// lazy transform, then again after ToPolygons(): a value that differs means
+// lazy state is observable (*leak names the getter).
+std::string observeX(const CrossSection& c, Rng* order, std::string* leak = nullptr) {
   if (!order) return fp_cross(c);
-  // vary which getter forces materialisation first
-  switch (order->below(4)) {
-    case 0: (void)c.GetTolerance(); break;
-    case 1: (void)c.Area(); break;
-    case 2: (void)c.NumVert(); break;
-    default: break;
+  const int which = (int)order->below(4);
+  auto read = [&]() -> std::string {
+    switch (which) {
+      case 0: {
+        double t = c.GetTolerance();
+        return hex(fnv(&t, sizeof t));
+      }
+      case 1: {
+        double a = c.Area();
+        return hex(fnv(&a, sizeof a));
+      }
+      case 2: return std::to_string(c.NumVert());
+      default: {
+        Rect r = c.Bounds();
+        return hex(fnv(&r, sizeof r));
+      }
+    }
+  };
+  const std::string before = read();
+  std::string f = fp_cross(c);  // forces ToPolygons()
+  const std::string after = read();
+  if (before != after && leak) {
+    static const char* names[4] = {"GetTolerance", "Area", "NumVert", "Bounds"};
+    *leak = names[which];
   }
-  return fp_cross(c);
+  return f;
 }
 
 std::string job_prog(const Args& a) {
@@ -124,7 +146,9 @@ std::string job_prog(const Args& a) {
         for (auto& p : e.produced) {
           std::string f;
           if (p.isX) {
-            f = observeX(e.X[p.idx], ord);
+            std::string leak;
+            f = observeX(e.X[p.idx], ord, &leak);
+            if (c05 && !leak.empty()) addViol("C05", i, op.text(), "lazy_state_observable:" + leak);
             if (c05) {
               birthX.resize(e.X.size());
               howX.resize(e.X.size());
@@ -231,5 +255,167 @@ std::string job_prog(const Args& a) {
 }  // namespace
 
 void register_prog() { registry()["prog"] = job_prog; }
+
+}  // namespace vh
+
+// ---------------------------------------------------------------------------
+// Job "c05defer": lazy state must be unobservable. The same history is run
+// twice: pass A observes every object the moment it is born (which
+// materialises pending lazy transforms), pass B observes nothing until the
+// end. (1) In pass B every copy / assignment made between never-observed
+// objects must equal its source when both are finally observed. (2) Every
+// CrossSection must show the same final observation in both passes (for
+// Manifolds only the C03 guarantee "same solid" exists across different
+// forcing histories, so they are compared in (1) only).
+namespace vh {
+namespace {
+
+struct CopyRel {
+  bool isX;
+  size_t dst, src;
+  size_t step;
+};
+
+// Observation-history independent summary of a CrossSection: transforms that are composed lazily and
+// applied once round differently from transforms applied one by one, so coordinates are compared
+// within rounding, not bit for bit.
+struct XSummary {
+  double area, tol, b[4];
+  bool finite;
+};
+XSummary xsummary(const CrossSection& c) {
+  XSummary s;
+  s.area = c.Area();
+  s.tol = c.GetTolerance();
+  Rect r = c.Bounds();
+  s.finite = r.IsFinite();
+  s.b[0] = r.min.x;
+  s.b[1] = r.min.y;
+  s.b[2] = r.max.x;
+  s.b[3] = r.max.y;
+  return s;
+}
+std::string xsummary_diff(const XSummary& a, const XSummary& b) {
+  auto close = [](double x, double y, double rel) { return std::abs(x - y) <= rel * (1e-9 + std::abs(x) + std::abs(y)); };
+  if (!close(a.area, b.area, 1e-7)) return "area";
+  if (a.finite != b.finite) return "bounds";
+  if (a.finite)
+    for (int k = 0; k < 4; k++)
+      if (!close(a.b[k], b.b[k], 1e-7) && std::abs(a.b[k] - b.b[k]) > 1e-9) return "bounds";
+  // The tolerance of a derived CrossSection is scaled once from the composed pending transform, by
+  // design (cross_section.cpp GetPaths): it legitimately differs between a history that materialised
+  // an intermediate and one that did not, so it is not compared across passes.
+  return "";
+}
+
+struct DeferPass {
+  std::vector<XSummary> sumX;
+  std::vector<std::string> finalX, finalM;
+  std::vector<std::string> copyViol;
+};
+
+DeferPass defer_pass(const std::vector<Op>& ops, bool observeAtBirth) {
+  DeferPass out;
+  Env e;
+  e.capM = 100000;
+  e.capX = 100000;
+  std::vector<CopyRel> rel;
+  for (size_t i = 0; i < ops.size(); i++) {
+    const Op& op = ops[i];
+    if (op.name == "drop" || op.name == "moveout") continue;
+    CopyRel r{false, (size_t)-1, (size_t)-1, i};
+    bool isRel = false;
+    if ((op.name == "copy" || op.name == "assign") && !e.M.empty()) {
+      r.isX = false;
+      r.src = e.mi(op.name == "assign" ? op.arg(1) : op.arg(0));
+      r.dst = op.name == "assign" ? e.mi(op.arg(0)) : e.M.size();
+      isRel = true;
+    }
+    if ((op.name == "xcopy" || op.name == "xassign") && !e.X.empty()) {
+      r.isX = true;
+      r.src = e.xi(op.name == "xassign" ? op.arg(1) : op.arg(0));
+      r.dst = op.name == "xassign" ? e.xi(op.arg(0)) : e.X.size();
+      isRel = true;
+    }
+    if (isRel && (op.name == "assign" || op.name == "xassign")) {
+      // the slot is overwritten: relations through it end here
+      std::vector<CopyRel> keep;
+      for (auto& q : rel)
+        if (!(q.isX == r.isX && (q.dst == r.dst || q.src == r.dst))) keep.push_back(q);
+      rel = keep;
+    }
+    exec(e, op);
+    if (isRel && r.dst != r.src) rel.push_back(r);
+    if (observeAtBirth)
+      for (auto& p : e.produced) {
+        if (p.isX)
+          (void)fp_cross(e.X[p.idx]);
+        else
+          (void)fp_manifold(e.M[p.idx]);
+      }
+  }
+  if (!observeAtBirth) {
+    // the copy first, then its source
+    for (auto& q : rel) {
+      std::string a, b;
+      if (q.isX) {
+        if (q.dst >= e.X.size() || q.src >= e.X.size()) continue;
+        a = fp_cross(e.X[q.dst]);
+        b = fp_cross(e.X[q.src]);
+      } else {
+        if (q.dst >= e.M.size() || q.src >= e.M.size()) continue;
+        a = fp_manifold(e.M[q.dst]);
+        b = fp_manifold(e.M[q.src]);
+      }
+      if (a != b) out.copyViol.push_back(ops[q.step].text() + "|" + fp_diff(b, a));
+    }
+  }
+  for (auto& x : e.X) {
+    out.finalX.push_back(fp_cross(x));
+    out.sumX.push_back(xsummary(x));
+  }
+  for (auto& m : e.M) out.finalM.push_back(fp_manifold(m));
+  return out;
+}
+
+std::string job_c05defer(const Args& a) {
+  SimSetup s = sim_setup(a);
+  const std::vector<Op> ops = parse_program(a.s("prog"));
+  JArr viol;
+  size_t nX = 0, nM = 0, nRel = 0;
+  SimOutcome out = run_simulated(s, [&]() {
+    DeferPass A = defer_pass(ops, true);
+    Manifold::Impl::meshIDCounter_ = 1;
+    DeferPass B = defer_pass(ops, false);
+    nX = B.finalX.size();
+    nM = B.finalM.size();
+    for (auto& v : B.copyViol) {
+      auto p = v.find('|');
+      viol.raw(JObj().str("prop", "C05").i64("step", -1).str("op", v.substr(0, p)).str("clause", "unobserved_copy_differs_from_source:" + v.substr(p + 1)).done());
+    }
+    if (A.finalX.size() != B.finalX.size()) {
+      viol.raw(JObj().str("prop", "C05").i64("step", -1).str("op", "final").str("clause", "pool_size_depends_on_observation").done());
+    } else {
+      for (size_t i = 0; i < A.finalX.size(); i++)
+        if (A.finalX[i] != B.finalX[i]) {
+          std::string d = xsummary_diff(A.sumX[i], B.sumX[i]);
+          if (d.empty()) continue;
+          viol.raw(JObj().str("prop", "C05").i64("step", (int64_t)i).str("op", "final").str("clause", "cross_section_depends_on_earlier_observation:" + d).done());
+          break;
+        }
+    }
+  });
+  if (out.exception) viol.raw(JObj().str("prop", "C09").i64("step", -1).str("op", "").str("clause", "exception:" + out.what).done());
+  JObj j;
+  j.raw("steps", "[]").raw("final", "[]").raw("viol", viol.done());
+  j.u64("objects", nX + nM).u64("tris", 0).u64("derived_suppressed", 0).raw("ops", "{}");
+  j.raw("sim", outcome_json(out));
+  (void)nRel;
+  return j.done();
+}
+
+}  // namespace
+
+void register_c05defer() { registry()["c05defer"] = job_c05defer; }
 
 }  // namespace vh
